@@ -81,7 +81,10 @@ OSent == /\ (Ev("send") \/ Ev("reply"))
          /\ viol' = IF ~Well(T) THEN Flag("WellFormed")
                     ELSE IF \E k \in Nodes : Vw(T)[k] > own[k] THEN Flag("NoInflightBroadcast")
                     ELSE viol
-         /\ UNCHANGED <<hdr, own, infl, seen, pend, outst, age, dirty, final, unsettled>>
+         (* "reply" is logged when ReceiveValue of node T.i has returned: the state handed to *)
+         (* it is in its queue from here on; its ticks are counted from here               *)
+         /\ age' = IF T.e = "reply" THEN [age EXCEPT ![T.i] = 0] ELSE age
+         /\ UNCHANGED <<hdr, own, infl, seen, pend, outst, dirty, final, unsettled>>
 
 (* a state is handed to node j's ReceiveValue (deliver: i -> j) / returned to the *)
 (* broadcasting node i as reply of j (replied): it will be merged there           *)
@@ -89,7 +92,8 @@ OHand == /\ (Ev("deliver") \/ Ev("replied"))
          /\ LET to == IF T.e = "deliver" THEN T.j ELSE T.i IN
             /\ pend' = [pend EXCEPT ![to] = [k \in Nodes |-> Max(@[k], Vw(T)[k])]]
             /\ outst' = [outst EXCEPT ![to] = @ + 1]
-         /\ UNCHANGED <<hdr, own, infl, seen, age, dirty, final, unsettled, viol>>
+            /\ age' = [age EXCEPT ![to] = 0]
+         /\ UNCHANGED <<hdr, own, infl, seen, dirty, final, unsettled, viol>>
 
 OFail == /\ Ev("fail") /\ dirty' = [dirty EXCEPT ![T.i][T.j] = TRUE]
          /\ UNCHANGED <<hdr, own, infl, seen, pend, outst, age, final, unsettled, viol>>
@@ -122,12 +126,15 @@ ORead == /\ Ev("read")
             /\ seen' = [seen EXCEPT ![T.i] = [k \in Nodes |-> IF k = T.i THEN @[k] ELSE Max(@[k], v[k])]]
          /\ UNCHANGED <<hdr, own, infl, pend, outst, age, dirty, final, unsettled>>
 
-(* the driver claims quiescence; it counts only if the events bear it out: every  *)
-(* real node began >= 3 ticker iterations after its last commit returned (so >= 2 *)
-(* whole broadcasts started after it), nothing handed over is unmerged, no        *)
-(* section is in flight. Then every committed update must be everywhere.          *)
-SettleOK == /\ \A i \in RealN : age[i] >= 3 /\ infl[i] = 0
-            /\ \A i \in Nodes : outst[i] = 0
+(* the driver claims quiescence; it counts only if the events bear it out: no     *)
+(* section is in flight and every real node began >= 3 ticker iterations after    *)
+(* its last commit returned and after the last state was handed to it (so >= 2    *)
+(* whole broadcasts started after the commit), and every state handed to it was   *)
+(* reported merged -- or, failing such reports, it began >= 50 iterations (the    *)
+(* generous bound in protocol events of DESIGN section 3). Then every committed   *)
+(* update must be everywhere.                                                     *)
+SettleOK == \A i \in RealN : /\ infl[i] = 0 /\ age[i] >= 3
+                             /\ (outst[i] = 0 \/ age[i] >= 50)
 OSettled == /\ Ev("settled")
             /\ final' = SettleOK /\ unsettled' = (unsettled \/ ~SettleOK)
             /\ UNCHANGED <<hdr, own, infl, seen, pend, outst, age, dirty, viol>>
